@@ -31,6 +31,7 @@ props! {
     c14 => "C14",
     c31 => "C31",
     c32 => "C32",
+    c33 => "C33",
     c35 => "C35",
 }
 
